@@ -951,3 +951,6 @@ def replay(data):
         return False
     code = C.run_case_files(ID + "/replay", "Run.C03Run Model.LazyEval", "", [[f"({inp['stmts_term']}, {t})"]], judge_expr="map judge cases", opens=OPENS)[0][0]
     return not (code & 2)
+
+# session-7 addition to the claimed level (MANIFEST text only)
+LEVEL_TEXT = LEVEL_TEXT + " " + 'Props/R_permute.v: on the whole-program reference assembler, any permutation of independent definitions (contiguous, scattered before any End, or the filter form with boolean side conditions) gives the same outcome (R_permute_defs, _scattered, _anywhere, _bool; by Permutation induction over R_move_def).'
